@@ -223,6 +223,7 @@ type vCfg struct {
 	itemsSizer bool // the queue is sized by items instead of requests (always so with sending_queue::batch)
 	faultSize  bool // persistent: the queue-size snapshot cannot be written (persistentQueue.Shutdown returns an error when sized by items)
 	faultClose bool // persistent: client.Close returns an error
+	splitIDs   bool // split family: ids in the log are item ids 10r+j; the model's ids are the request ids r
 	direct     bool // neither sending queue nor batcher: Send runs the sender chain on the caller's goroutine
 	noqueue    bool // deprecated: WithBatcher without a queue = memory queue, wait_for_result, blocking, one consumer
 	// stress schedules only
@@ -245,7 +246,7 @@ func (c vCfg) term() string {
 	// the snapshot is only written when the queue is not sized by requests (sending_queue::batch => items)
 	fsize := c.faultSize && c.persistent && c.itemsSizer
 	return vList([]string{b(c.persistent), b(c.batch), b(c.timer), vNat(c.mode), vNat(n), vNat(c.min), b(c.wait),
-		b(fsize), b(c.faultClose && c.persistent)})
+		b(fsize), b(c.faultClose && c.persistent), vNat(c.max), b(!c.direct)})
 }
 
 type vEvent struct {
@@ -520,11 +521,32 @@ func vIDs(l []int) string {
 	return vList(it)
 }
 
+// vReqIDs maps the ids of an event to the model's request ids (split family: item 10r+j -> request r).
+func (c vCfg) vReqIDs(ids []int) []int {
+	if !c.splitIDs {
+		return ids
+	}
+	var out []int
+	for _, i := range ids {
+		if !vContains(out, i/10) {
+			out = append(out, i/10)
+		}
+	}
+	sort.Ints(out)
+	return out
+}
+
 func (h *vRun) phaseTerm(ph int) string {
 	h.mu.Lock()
 	var evs []vEvent
 	for _, e := range h.events {
-		if e.phase == ph && e.kind <= 6 {
+		if e.phase == ph && (e.kind <= 6 || e.kind == 8) {
+			if e.kind != 2 { // the ids of a return event are the error flag
+				e.ids = h.cfg.vReqIDs(e.ids)
+			}
+			if e.kind == 8 {
+				e.ids = []int{e.ids[0], e.out} // Send returned: id, 0 ok | 1 error | 2 shutdown error
+			}
 			evs = append(evs, e)
 		}
 	}
@@ -786,8 +808,9 @@ func vSchedule(out *vOut, rng *vRand, nr int, split bool) vSched {
 		cfg.batch = true
 		cfg.legacy = rng.Intn(100) < 30
 		cfg.timer = rng.Bool()
-		cfg.max = 1 + rng.Intn(2)
+		cfg.max = 1 + rng.Intn(3)
 		cfg.min = 1 + rng.Intn(cfg.max)
+		cfg.splitIDs = true
 	}
 	cfg.itemsSizer = (cfg.batch && !cfg.legacy) || rng.Intn(100) < 40
 	if cfg.persistent {
@@ -933,7 +956,7 @@ func vSchedule(out *vOut, rng *vRand, nr int, split bool) vSched {
 				backoff[c.ids[0]] = true
 			}
 			c.gate <- o
-			ok = endPhase(fmt.Sprintf("(1, %d, %d)", c.ids[0], o))
+			ok = endPhase(fmt.Sprintf("(1, %d, %d)", cfg.vReqIDs(c.ids)[0], o))
 		case 2:
 			// persistent queue: a consumer woken from its back-off by close(stopCh) races with the queue's
 			// stop for the next stored item; both orders are legal: such schedules are oracle-only.
@@ -1039,8 +1062,13 @@ func vSchedule(out *vOut, rng *vRand, nr int, split bool) vSched {
 	if res.racy && shutPhase >= 0 && shutPhase < len(phases) {
 		// tell the model how the race went: m = ids whose first export began after Shutdown was called
 		m := 0
+		before, seen := map[int]bool{}, map[int]bool{}
+		for i := range begunAtCall {
+			before[cfg.vReqIDs([]int{i})[0]] = true
+		}
 		for i := range begunIDs() {
-			if !begunAtCall[i] {
+			if r := cfg.vReqIDs([]int{i})[0]; !before[r] && !seen[r] {
+				seen[r] = true
 				m++
 			}
 		}
@@ -1055,7 +1083,7 @@ func vSchedule(out *vOut, rng *vRand, nr int, split bool) vSched {
 		phases[shutPhase] = strings.Replace(phases[shutPhase], "((2, 0, 0),", fmt.Sprintf("((2, %d, %d),", m, e), 1)
 		out.Stat("race_observed_m", m)
 	}
-	res.term = fmt.Sprintf("(%s, %s, (%s, %d))", cfg.term(), vList(phases), vIDs(stored), helpers)
+	res.term = fmt.Sprintf("(%s, %s, (%s, %d))", cfg.term(), vList(phases), vIDs(cfg.vReqIDs(stored)), helpers)
 
 	// ---- direct oracle on the ordered event log ----------------------------------------------------
 	if ok {
@@ -1331,20 +1359,22 @@ func vDirect(out *vOut, rng *vRand, nr int) (failed, abort bool) {
 		out.Oracle("harness-setup", "([8], [], ([], 0))", "queue-less configuration has a queue sender")
 		return true, false
 	}
-	var script []string
+	var script, phases []string
 	fail := func(kind, detail string) {
 		failed = true
 		out.Oracle(kind, "([8], [], ([], 0))", fmt.Sprintf("%s  [no queue, no batcher, retry mode %d, script %s]", detail, cfg.mode, strings.Join(script, " ")))
 		vFlush(out)
 	}
-	step := func(act string) bool {
+	step := func(act, term string) bool {
 		script = append(script, act)
+		ph := h.phase
 		if !h.quiesce() {
 			_, _, busy := h.snapshot()
 			fail("shutdown-hangs", "no quiescence within 20 s after "+act+": "+busy)
 			abort = true
 			return false
 		}
+		phases = append(phases, vPair(term, h.phaseTerm(ph)))
 		return true
 	}
 	pending := map[int]bool{} // Sends that have not returned
@@ -1398,14 +1428,14 @@ func vDirect(out *vOut, rng *vRand, nr int) (failed, abort bool) {
 		switch rng.Pick(wSend, wRel, wShut) {
 		case 0:
 			send(nextID)
-			ok = step(fmt.Sprintf("send(%d)", nextID))
+			ok = step(fmt.Sprintf("send(%d)", nextID), fmt.Sprintf("(4, %d, 0)", nextID))
 			nextID++
 		case 1:
 			sort.Slice(infl, func(a, b int) bool { return infl[a].ids[0] < infl[b].ids[0] })
 			c := infl[rng.Intn(len(infl))]
 			o := rng.Pick(40, 45, 15)
 			c.gate <- o
-			ok = step(fmt.Sprintf("release(%d,%d)", c.ids[0], o))
+			ok = step(fmt.Sprintf("release(%d,%d)", c.ids[0], o), fmt.Sprintf("(1, %d, %d)", c.ids[0], o))
 		case 2:
 			shutdownCalled = true
 			pmu.Lock()
@@ -1420,7 +1450,7 @@ func vDirect(out *vOut, rng *vRand, nr int) (failed, abort bool) {
 				_ = h.be.Shutdown(sctx)
 				h.log(2, nil, 0)
 			}()
-			ok = step("Shutdown")
+			ok = step("Shutdown", "(2, 0, 0)")
 			if cancelLater != nil {
 				cancelLater()
 			}
@@ -1477,6 +1507,10 @@ func vDirect(out *vOut, rng *vRand, nr int) (failed, abort bool) {
 		return failed, true
 	}
 	h.releaseAll()
+	if !failed {
+		out.Case(true, fmt.Sprintf("(%s, %s, ([], 0))", cfg.term(), vList(phases)))
+		out.Stat("direct_schedules_compared", 1)
+	}
 	out.Stat("direct_schedules", 1)
 	out.Stat(fmt.Sprintf("direct_retry_mode_%d", cfg.mode), 1)
 	return failed, false
@@ -1511,7 +1545,7 @@ func TestVerifC03(t *testing.T) {
 		}
 	}
 	out.Stat("gated_wall_ms", int(time.Since(t0).Milliseconds()))
-	// the split family (oracle-only)
+	// the split family
 	prng := vNewRand(333)
 	prng.s = prng.U64()
 	for k, np := 0, vBudget(300, 20); k < np; k++ {
@@ -1523,10 +1557,13 @@ func TestVerifC03(t *testing.T) {
 		}
 		if r.failed {
 			out.Stat("split_schedules_failed", 1)
+		} else {
+			out.Case(strings.Contains(r.term, "(1, "), r.term)
+			out.Stat("split_schedules_compared", 1)
 		}
 		out.Stat("split_schedules", 1)
 	}
-	// exporters without queue and batcher (oracle-only)
+	// exporters without queue and batcher
 	drng := vNewRand(3333)
 	for k, nd := 0, vBudget(150, 20); k < nd; k++ {
 		f, abort := vDirect(out, drng, k)
